@@ -101,6 +101,11 @@ check("C06", "property test of algebraic laws of the subtype judgement over gene
       "Type expressions the checker objects to as such (unsupported syntax such as a set of an enum) are discarded and counted; container covariance is not asserted (the statement does not promise it).",
       "DESIGN.md §3 C06")
 
+check("C19", "differential property test over schedules and configurations: repeated builds of generated projects with injected thread start delays and with the parallel feature off",
+      "Projects from the C20 generator are compiled by `erg compile main.er` in fresh processes: plainly, twice with pseudo-random start delays of 0-30 ms per analysis thread (hook ERG_VERIF_JITTER in erg_common::spawn, different seed each time) and once by the CLI built without the `parallel` feature (harness/seq); bytes 16.. of main.pyc, the exit status and the sorted multiset of diagnostic lines must be identical across all builds.",
+      "Delays are injected at thread start only (not at every join); generated variable numbers in diagnostics are masked before comparison; the delay schedule is a function of the case, so a failure replays.",
+      "DESIGN.md §3 C19")
+
 check("C20", "model-based property test: generated import graphs run end-to-end against a reference model of the program's output",
       "Projects of 1-8 modules with generated import graphs (DAGs, diamonds, 2- and longer cycles, self-imports), typed public bindings, top-level reads through annotated bindings and reads inside functions; `erg run main.er` (the working tree's CLI, fresh directory per case) must terminate within 90 s (a timeout is confirmed by a second run), exit 0 and print exactly the predicted multiset of lines (every module's start/end marker once, every value as defined); a falsified annotation of an imported binding must be rejected.",
       "'Analyses each module once' is not observed (no counter hook); execution order of module bodies is not constrained, only multiplicity. Thread schedules are whatever the OS gives (C19 injects jitter).",
